@@ -28,7 +28,7 @@ CONFIGS = {
     "quick": [
         dict(name="headers", MaxItems=5, MaxDepth=3, Reps="{1, 14}", FVariants=ALLV, SVariants='{"plain"}', CVariants='{"if"}', Allowed=ALLK, layouts=[0]),
         dict(name="statements", MaxItems=5, MaxDepth=3, Reps="{1}", FVariants='{"plain"}', SVariants=ALLS, CVariants=ALLC, Allowed=ALLK, layouts=[1]),
-        dict(name="depth", MaxItems=9, MaxDepth=4, Reps="{1}", FVariants='{"plain"}', SVariants='{"plain"}', CVariants='{"if"}', Allowed='{"F","X","S"}', layouts=[0]),
+        dict(name="depth", MaxItems=10, MaxDepth=4, Reps="{1}", FVariants='{"plain"}', SVariants='{"plain"}', CVariants='{"if"}', Allowed='{"F","X","S"}', layouts=[0]),
         dict(name="mixed", MaxItems=6, MaxDepth=3, Reps="{2}", FVariants='{"plain", "arrow", "lineabove"}', SVariants='{"plain"}', CVariants='{"try"}', Allowed='{"F","K","C","E","X","S","R"}', layouts=[2]),
         dict(name="wrapped", MaxItems=8, MaxDepth=3, Reps="{1}", FVariants='{"plain", "prefix"}', SVariants='{"plain"}', CVariants='{"if"}', Allowed='{"F","K","W","X","S"}', layouts=[0]),
         # a call-wrapped class inside a method of a call-wrapped class: the nested header search two levels deep
